@@ -49,6 +49,8 @@ from vgi_rpc.utils import ArrowSerializableDataclass
 
 OUT_SCHEMA = pa.schema([("x", pa.int64())])
 IN_SCHEMA = pa.schema([("v", pa.int64())])
+OUT2_SCHEMA = pa.schema([("x", pa.int64()), ("y", pa.int64())])   # "wide" exchange methods (desc: "wide": true)
+IN2_SCHEMA = pa.schema([("v", pa.int64()), ("w", pa.int64())])
 
 
 # ----------------------------------------------------------------------------------------- exceptions
@@ -128,7 +130,15 @@ class ScriptState(StreamState):
             return
         elif "emit" in act or "emit_finish" in act:
             b = act.get("emit") or act.get("emit_finish")
-            out.emit_pydict({"x": [b["id"]] * b.get("rows", 1)}, metadata=b.get("meta") or None)
+            if b.get("alias"):
+                # zero-copy output that re-uses the INPUT's buffers in another column layout (x <- w, y <- v): over a
+                # shared-memory transport this is only safe while the input's region stays allocated until the output is written
+                ib = input.batch
+                out.emit(pa.RecordBatch.from_arrays([ib.column(1), ib.column(0)], schema=OUT2_SCHEMA), metadata=b.get("meta") or None)
+            elif len(input.batch.schema) == 2:
+                out.emit_pydict({"x": [b["id"]] * b.get("rows", 1), "y": [0] * b.get("rows", 1)}, metadata=b.get("meta") or None)
+            else:
+                out.emit_pydict({"x": [b["id"]] * b.get("rows", 1)}, metadata=b.get("meta") or None)
             for lg in step.get("post", []):
                 out.client_log(Level(lg["level"]), lg["text"], **lg.get("extra", {}))
             if "emit_finish" in act:
@@ -193,9 +203,10 @@ def build(desc: dict[str, Any], version: str | None = None) -> tuple[type, Any]:
                 if init == "nonstream":
                     return 42
                 st = ScriptState(prog=json.dumps(_m["steps"]), i=0, exchange=_m["kind"] == "exchange", tag=_m["name"])
-                kw: dict[str, Any] = {"output_schema": OUT_SCHEMA, "state": st}
+                wide = bool(_m.get("wide")) and _m["kind"] == "exchange"
+                kw: dict[str, Any] = {"output_schema": OUT2_SCHEMA if wide else OUT_SCHEMA, "state": st}
                 if _m["kind"] == "exchange":
-                    kw["input_schema"] = IN_SCHEMA
+                    kw["input_schema"] = IN2_SCHEMA if wide else IN_SCHEMA
                 if _hdr and init != "noheader":
                     kw["header"] = Hdr(h=_m.get("hdr", 0))
                 return Stream(**kw)
@@ -307,7 +318,27 @@ def _ev_data(ab: AnnotatedBatch) -> list[Any]:
             ks = k.decode() if isinstance(k, bytes) else k
             if not ks.startswith("vgi_rpc."):
                 md[ks] = v.decode() if isinstance(v, bytes) else v
+    if "y" in b.schema.names:
+        # two-column (wide) outputs are identified by their whole content, not by their first value
+        return ["data", wide_digest(x, b.column("y").to_pylist()), b.num_rows, dict(sorted(md.items()))]
     return ["data", x[0] if x else None, b.num_rows, dict(sorted(md.items()))]
+
+
+def wide_digest(x: list[int], y: list[int]) -> int:
+    """Content digest of a two-column batch (order- and column-sensitive), small enough for a JSON number."""
+    h = 17
+    for i, (a, c) in enumerate(zip(x, y)):
+        h = (h * 1_000_003 + a * 31 + c * 7 + i) % 2_147_483_629
+    return h
+
+
+def wide_input_values(v: int, rows: int) -> tuple[list[int], list[int]]:
+    return [v * 1_000_000 + j for j in range(rows)], [-(v * 1_000_000 + 3 * j + 1) for j in range(rows)]
+
+
+def make_wide_input(v: int, rows: int) -> AnnotatedBatch:
+    a, c = wide_input_values(v, rows)
+    return AnnotatedBatch.from_pydict({"v": a, "w": c}, schema=IN2_SCHEMA)
 
 
 def run_script(desc: dict[str, Any], script: list[list[Any]], cfg: Config, *, version: str | None = None,
@@ -362,7 +393,10 @@ def run_script(desc: dict[str, Any], script: list[list[Any]], cfg: Config, *, ve
                             cur.append(["end"])
                     elif kind == "send":
                         variant = op[2] if len(op) > 2 else "ok"
-                        cur.append(_ev_data(sess.exchange(make_input(op[1], variant))))
+                        if isinstance(variant, dict) and "wide_rows" in variant:
+                            cur.append(_ev_data(sess.exchange(make_wide_input(op[1], variant["wide_rows"]))))
+                        else:
+                            cur.append(_ev_data(sess.exchange(make_input(op[1], variant))))
                     elif kind == "close":
                         sess.close()
                         cur.append(["closed"])
